@@ -245,6 +245,12 @@ def build_cases(ctx, res):
             sib = P.table_icode_siblings(rng, recs)
             if sib is not None:
                 variants.append(("icode-siblings", sib, {}))
+            org = P.table_atom_at_origin(rng, recs)
+            if org is not None:
+                variants.append(("atom-at-origin", org, {}))
+            dsc = P.table_icode_siblings(rng, recs, descending=True)
+            if dsc is not None:
+                variants.append(("icodes-descending", dsc, {}))
             base_pdb, base_cif = P.table_texts(recs)
             for vtag, vrecs, cmap in variants:
                 pdb, cif = P.table_texts(vrecs)
@@ -260,11 +266,11 @@ def build_cases(ctx, res):
                 # PDB against mmCIF of the same table
                 cases.append(mk_case("format", "pdb-vs-cif:" + vtag, rc, rp, source=name, texts={"base": cif, "other": pdb},
                                      margins_other=False))
-                if vtag != "same":
+                if vtag not in ("same", "icodes-descending"):
                     # the changed table (as PDB) against the base table (as mmCIF)
                     cases.append(mk_case("format", "table-" + vtag, rb, rp, cmap=cmap, source=name,
                                          skip=("gaps",) if vtag == "icode-siblings" else (),
-                                         texts={"base": base_cif, "other": pdb}, margins_other=vtag == "axis+translation"))
+                                         texts={"base": base_cif, "other": pdb}, margins_other=vtag in ("axis+translation", "atom-at-origin")))
         mine = []
         try:
             from rnapolis.annotator import find_pairs
